@@ -285,6 +285,10 @@ class Exec(ExprMixin, CallMixin):
         if c is not None and isinstance(tgt, ast.Name) and c.types.get(tgt.id) is Dict and isinstance(v, VRec) and v.ty.as_dict \
                 and not fr.is_spec:
             return self.adapt_arg(v, Dict)
+        from .ty import MapOf
+        if c is not None and isinstance(tgt, ast.Name) and isinstance(c.types.get(tgt.id), MapOf) and isinstance(v, VRec) \
+                and v.ty.as_dict and not v.fields and not fr.is_spec:
+            return c.types[tgt.id].empty()  # `{}` bound to a local the contract types as a MapOf
         return v
 
     def st_AnnAssign(self, st, fr):
@@ -734,6 +738,9 @@ class Exec(ExprMixin, CallMixin):
             v.seq = z3.Const(fresh_name(base), z3.SeqSort(v.elem.sort()))
         elif isinstance(v, VDict):
             v.t = z3.Const(fresh_name(base), v.t.sort())
+        elif type(v).__name__ == "VMap":
+            nv = v.ty.fresh(base)
+            v.present, v.vals = nv.present, nv.vals
         elif isinstance(v, VRec) and depth < 6:
             for k, x in list(v.fields.items()):
                 if isinstance(x, (VList, VDict, VRec)):
